@@ -3,7 +3,7 @@
    Model: Model/ObjStm.v (pdf_streams.rs ObjStreamP as repaired in 681cda4, register_obj as
    repaired in f218988) over the object parser of Model/Obj.v; spec: Spec/ObjStmEnc.v. *)
 From PV Require Import Model.Prim Model.Obj Model.ObjStm Spec.XrefEnc Spec.ObjStmEnc.
-From PV Require Import Proofs.XrefBase Proofs.XrefTab Proofs.ObjStm.
+From PV Require Import Proofs.XrefBase Proofs.XrefTab Proofs.ObjStm Proofs.ObjStmTotal.
 
 (* the stream as written: header pairs [l] (any white space, leading zeros), padding up to /First,
    then the data [body]; the members [ms] are the values the object parser reads at the declared
@@ -88,6 +88,18 @@ Theorem C14_ctx_monotone : forall rel b enc d content dec ctx id o,
   lookup ctx id = Some o -> lookup (snd (objstm_parse rel b enc d content dec ctx)) id = Some o.
 Proof. exact objstm_monotone. Qed.
 
+(* totality (C01): on ANY dictionary, content, decoder output and context the object-stream parser
+   neither panics nor runs out of fuel — debug profile for buffers below 2^31 bytes (the i32
+   parenthesis counter of literal strings, see C15/C02), release profile for any size *)
+Theorem C14_total : forall rel b enc d content dec ctx,
+  (Z.of_nat (len content) < 2147483648)%Z -> (Z.of_nat (len dec) < 2147483648)%Z ->
+  fst (objstm_parse rel b enc d content dec ctx) <> OSPanic /\ fst (objstm_parse rel b enc d content dec ctx) <> OSFuel.
+Proof. exact objstm_total. Qed.
+
+Theorem C14_total_release : forall b enc d content dec ctx,
+  fst (objstm_parse true b enc d content dec ctx) <> OSPanic /\ fst (objstm_parse true b enc d content dec ctx) <> OSFuel.
+Proof. exact objstm_total_release. Qed.
+
 (* the two witnesses of the pinned code's defects, on the repaired code *)
 Definition w_dict : dict := [(B "First", OInt 8); (B "N", OInt 2); (B "Type", OName (B "ObjStm"))].
 
@@ -133,5 +145,7 @@ Print Assumptions C14_rejects_overrun.
 Print Assumptions C14_rejects_offset_beyond.
 Print Assumptions C14_rejects_duplicate.
 Print Assumptions C14_ctx_monotone.
+Print Assumptions C14_total.
+Print Assumptions C14_total_release.
 Print Assumptions C14_offsets_witness.
 Print Assumptions C14_duplicate_witness.
